@@ -623,12 +623,42 @@ Lemma gen_sites_cmp_fix cfg rho rest :
   = flat_map (fun cb => gen_sites cfg rho (snd cb)) rest.
 Proof. induction rest as [|[o b] t IH]; cbn; [reflexivity|]. rewrite IH. reflexivity. Qed.
 
-Theorem generator_preserves cfg : forall e rho,
-  generator_guard cfg rho e = true -> eval rho (rw_generator cfg e) = eval rho e.
+Lemma gen_call_hit cfg f elt x it rest :
+  gen_hit cfg f (EListComp elt x it :: rest) = true -> gen_call cfg f (EListComp elt x it :: rest) = ECall f [EGen false elt x it].
+Proof. unfold gen_hit, gen_call. intros ->. reflexivity. Qed.
+Lemma gen_call_not_gen cfg f args : is_gen (gen_call cfg f args) = false.
 Proof.
-  unfold generator_guard.
-  induction e using expr_ind'; intros rho G; cbn [rw_generator gen_sites] in *;
-    rewrite ?gen_sites_list_fix, ?gen_sites_cmp_fix in G; try reflexivity.
+  unfold gen_call. destruct args as [|a r]; [reflexivity|]. destruct a; try reflexivity.
+  destruct (gen_func f && (negb (ug_single_arg cfg) || match r with [] => true | _ :: _ => false end)); reflexivity.
+Qed.
+Lemma rw_generator_is_gen cfg e : is_gen (rw_generator cfg e) = is_gen e.
+Proof.
+  destruct e; try reflexivity; cbn [rw_generator].
+  - destruct (ug_nested cfg); reflexivity.
+  - destruct (gen_hit cfg f args); [destruct (ug_updated_parts cfg); apply gen_call_not_gen|destruct (ug_nested cfg); reflexivity].
+Qed.
+Lemma sole_gen_map_generator cfg args : sole_gen (map (rw_generator cfg) args) = sole_gen args.
+Proof.
+  destruct args as [|a [|b t]]; try reflexivity; cbn [map sole_gen]; pose proof (rw_generator_is_gen cfg a) as H;
+    destruct (rw_generator cfg a), a; cbn in H; try discriminate; reflexivity.
+Qed.
+
+Definition generator_parts (cfg : generator_cfg) (rho : env) (e : expr) : Prop :=
+  match e with
+  | EGen _ elt x it | EListComp elt x it =>
+      eval rho (rw_generator cfg it) = eval rho it /\
+      (forall vi vals, eval rho it = Val vi -> to_seq vi = inr vals ->
+                       forall v, List.In v vals -> eval (bind x v rho) (rw_generator cfg elt) = eval (bind x v rho) elt)
+  | _ => True
+  end.
+
+Lemma generator_strong cfg : forall e rho,
+  forallb generator_site_ok (gen_sites cfg rho e) = true ->
+  eval rho (rw_generator cfg e) = eval rho e /\ generator_parts cfg rho e.
+Proof.
+  induction e as [x|c|t|es H|es H|es H|r m args H|f args H|par op e1 e2 IHe1 IHe2|par e IHe|par e rest IHe H|e1 x e2 IHe1 IHe2|par e1 x e2 IHe1 IHe2|e1 e2 IHe1 IHe2|n e IHe]
+    using expr_ind'; intros rho G; cbn [rw_generator gen_sites generator_parts] in *;
+    rewrite ?gen_sites_list_fix, ?gen_sites_cmp_fix in G; (split; [|try exact I]); try reflexivity.
   - rewrite forallb_flat_map in G. rewrite forallb_forall in G.
     rewrite !eval_tuple, (evals_map_ext rho (rw_generator cfg) es); [reflexivity|].
     apply Forall_forall. intros a Ha. rewrite Forall_forall in H. apply H; [exact Ha|apply G, Ha].
@@ -638,27 +668,63 @@ Proof.
   - rewrite forallb_flat_map in G. rewrite forallb_forall in G.
     rewrite !eval_set, (evals_map_ext rho (rw_generator cfg) es); [reflexivity|].
     apply Forall_forall. intros a Ha. rewrite Forall_forall in H. apply H; [exact Ha|apply G, Ha].
-  - (* ECall: the site itself *)
-    unfold gen_call. destruct args as [|a rest]; [reflexivity|]. destruct a; try reflexivity.
-    destruct (gen_func f && (negb (ug_single_arg cfg) || match rest with [] => true | _ :: _ => false end)) eqn:C; [|reflexivity].
-    cbn [forallb generator_site_ok] in G. rewrite andb_true_r in G. apply andb_true_iff in G as [Gr Gl].
-    destruct rest; [|discriminate]. apply andb_true_iff in C as [Hf _].
-    apply generator_site_sound; [exact Hf|]. apply orb_true_iff in Gl as [Gl|Gl]; [left; apply negb_true_iff, Gl|right; exact Gl].
+  - (* EMeth *)
+    destruct (ug_nested cfg); [|reflexivity]. rewrite ?gen_sites_list_fix in G.
+    rewrite forallb_flat_map in G. rewrite forallb_forall in G.
+    rewrite !eval_meth, (evals_map_ext rho (rw_generator cfg) args); [reflexivity|].
+    apply Forall_forall. intros a Ha. rewrite Forall_forall in H. apply H; [exact Ha|apply G, Ha].
+  - (* ECall *)
+    destruct (gen_hit cfg f args) eqn:Hit.
+    + (* the call itself is rewritten *)
+      destruct args as [|a rest]; [discriminate|]. destruct a as [| | | | | | | | | | |elt x it| | |]; try discriminate.
+      cbn [forallb] in G. apply andb_true_iff in G as [Gs Gp].
+      cbn [generator_site_ok] in Gs. apply andb_true_iff in Gs as [Gr Gl].
+      destruct rest; [|discriminate].
+      assert (Hf : gen_func f = true) by (unfold gen_hit in Hit; apply andb_true_iff in Hit; apply Hit).
+      assert (Site : eval rho (ECall f [EGen false elt x it]) = eval rho (ECall f [EListComp elt x it])).
+      { apply generator_site_sound; [exact Hf|]. apply orb_true_iff in Gl as [Gl|Gl]; [left; apply negb_true_iff, Gl|right; exact Gl]. }
+      destruct (ug_updated_parts cfg).
+      * cbn [map rw_generator]. rewrite gen_call_hit by exact Hit. rewrite <- Site.
+        inversion H as [|? ? Ha _]; subst. destruct (Ha rho Gp) as [_ [Hi He]].
+        rewrite !eval_call_gen, Hi. destruct (eval rho it) as [vi|]; [|reflexivity]. unfold with_seq.
+        destruct (to_seq vi) as [r|vals] eqn:Es; [reflexivity|]. apply consume_ext. intros v Hv. apply (He vi vals eq_refl Es v Hv).
+      * rewrite gen_call_hit by exact Hit. exact Site.
+    + destruct (ug_nested cfg); [|reflexivity]. rewrite ?gen_sites_list_fix in G.
+      rewrite forallb_flat_map in G. rewrite forallb_forall in G.
+      destruct (sole_gen args) eqn:SG.
+      * destruct args as [|a [|b t]]; try discriminate; [|destruct a; discriminate]. destruct a; try discriminate.
+        inversion H as [|? ? Ha _]; subst. destruct (Ha rho (G _ (or_introl eq_refl))) as [_ [Hi He]].
+        cbn [map rw_generator]. rewrite !eval_call_gen, Hi.
+        destruct (eval rho a2) as [vi|]; [|reflexivity]. unfold with_seq.
+        destruct (to_seq vi) as [r|vals] eqn:Es; [reflexivity|]. apply consume_ext. intros v Hv. apply (He vi vals eq_refl Es v Hv).
+      * rewrite !eval_call by (try rewrite sole_gen_map_generator; exact SG).
+        rewrite (evals_map_ext rho (rw_generator cfg) args); [reflexivity|].
+        apply Forall_forall. intros a Ha. rewrite Forall_forall in H. apply H; [exact Ha|apply G, Ha].
   - rewrite forallb_app in G. apply andb_true_iff in G as [G1 G2].
-    rewrite !eval_bool, (IHe1 rho G1), (IHe2 rho G2). reflexivity.
-  - rewrite !eval_not, (IHe rho G). reflexivity.
+    rewrite !eval_bool, (proj1 (IHe1 rho G1)), (proj1 (IHe2 rho G2)). reflexivity.
+  - rewrite !eval_not, (proj1 (IHe rho G)). reflexivity.
   - rewrite forallb_app in G. apply andb_true_iff in G as [G1 G2].
-    rewrite !eval_cmp, (IHe rho G1). destruct (eval rho e) as [v|]; [|reflexivity].
+    rewrite !eval_cmp, (proj1 (IHe rho G1)). destruct (eval rho e) as [v|]; [|reflexivity].
     apply chain_map_ext. rewrite forallb_flat_map in G2. rewrite forallb_forall in G2.
     apply Forall_forall. intros cb Hcb. rewrite Forall_forall in H. apply (H cb Hcb rho). apply G2, Hcb.
-  - rewrite forallb_app in G. apply andb_true_iff in G as [G1 G2].
-    rewrite !eval_listcomp, (IHe2 rho G1). destruct (eval rho e2) as [vi|] eqn:Ei; [|reflexivity].
+  - (* EListComp: value *)
+    rewrite forallb_app in G. apply andb_true_iff in G as [G1 G2].
+    rewrite !eval_listcomp, (proj1 (IHe2 rho G1)). destruct (eval rho e2) as [vi|] eqn:Ei; [|reflexivity].
     unfold with_seq. destruct (to_seq vi) as [r|vals] eqn:Es; [reflexivity|].
     rewrite (map_res_ext (fun v => eval (bind x v rho) (rw_generator cfg e1)) (fun v => eval (bind x v rho) e1) vals); [reflexivity|].
     intros v Hv. apply IHe1. exact (under_binder_forall _ rho x e2 _ vi vals Ei Es G2 v Hv).
+  - (* EListComp: parts *)
+    rewrite forallb_app in G. apply andb_true_iff in G as [G1 G2]. split; [apply IHe2, G1|].
+    intros vi vals Ei Es v Hv. apply IHe1. exact (under_binder_forall _ rho x e2 _ vi vals Ei Es G2 v Hv).
+  - (* EGen: parts *)
+    rewrite forallb_app in G. apply andb_true_iff in G as [G1 G2]. split; [apply IHe2, G1|].
+    intros vi vals Ei Es v Hv. apply IHe1. exact (under_binder_forall _ rho x e2 _ vi vals Ei Es G2 v Hv).
   - rewrite forallb_app in G. apply andb_true_iff in G as [G1 G2].
-    rewrite !eval_floordiv, (IHe1 rho G1), (IHe2 rho G2). reflexivity.
+    rewrite !eval_floordiv, (proj1 (IHe1 rho G1)), (proj1 (IHe2 rho G2)). reflexivity.
 Qed.
+Theorem generator_preserves cfg : forall e rho,
+  generator_guard cfg rho e = true -> eval rho (rw_generator cfg e) = eval rho e.
+Proof. intros e rho G. apply generator_strong, G. Qed.
 Theorem generator_file_preserves cfg rho e :
   generator_guard cfg rho e = true -> eval rho (generator_file cfg e) = eval rho e.
 Proof. intros G. unfold generator_file. destruct (generator_crashes cfg e); [reflexivity|]. apply generator_preserves, G. Qed.
